@@ -44,6 +44,13 @@ class VwTwoVar:
     c: tuple[int, ...] = ()
 
 @dataclasses.dataclass
+class VwScale:
+    """a structured class that is also callable"""
+    factor: int = 1
+    def __call__(self, x):
+        return x * self.factor
+
+@dataclasses.dataclass
 class VwParent:
     name: str
     children: "list[VwChild]" = dataclasses.field(default_factory=list)
@@ -75,7 +82,7 @@ RAW = [
     ("typing.Tuple", False), ("typing.Set", False), ("typing.Sequence", False), ("typing.Mapping", False),
     ("VwTB", False), ("VwTC", False), ("type[int]", False), ("typing.Type[str]", False), ("type", False),
     ("VwG[int]", False), ("VwG", False), ("VwGD[str]", False), ("VwGD", False), ("VwNoAnn", False), ("VwEmpty", False), ("VwTwoVar", False),
-    ("VwAnyFields", False), ("VwParent", False), ("VwChild", False), ("VwSelf", False), ("list[VwParent]", False), ("dict[str, VwSelf]", False),
+    ("VwAnyFields", False), ("VwScale", False), ("list[VwScale]", False), ("VwParent", False), ("VwChild", False), ("VwSelf", False), ("list[VwParent]", False), ("dict[str, VwSelf]", False),
     ("list[typing.Any]", False), ("dict[str, typing.Any]", False), ("tuple[typing.Any, ...]", False), ("list[VwT]", False),
     ("typing.Optional[typing.Any]", False), ("dict[str, object]", False), ("tuple[int, typing.Any]", False), ("list[VwG[int]]", False),
     ("dict[str, typing.Callable[..., int]]", False), ("tuple[tuple[int, ...], tuple[str, ...], tuple[int, ...]]", False),
@@ -85,7 +92,7 @@ RAW = [
 PROBES = [None, 1, "a", "1", {"$f": "1.5"}, True, {"$list": [1, "a", None]}, {"$dict": [["a", 1]]}, {"$tuple": [1, 2]}, {"$list": []}, {"$dict": []},
           {"$dict": [["name", "p"], ["children", {"$list": [{"$dict": [["n", 1], ["parent", {"$dict": [["name", "q"], ["children", {"$list": []}]]}]]}]}]]},
           {"$dict": [["v", 1], ["left", {"$dict": [["v", 2], ["left", {"$dict": [["v", 3]]}]]}]]}, {"$dict": [["n", 1], ["parent", {"$dict": [["name", "q"]]}]]},
-          {"$dict": [["x", 1], ["n", 2]]}, {"$dict": [["a", 5], ["b", "y"]]}, {"$list": [{"$list": [1]}]}, {"$b": "6162"}, {"$set": [1]}]
+          {"$dict": [["factor", "3"]]}, {"$dict": [["x", 1], ["n", 2]]}, {"$dict": [["a", 5], ["b", "y"]]}, {"$list": [{"$list": [1]}]}, {"$b": "6162"}, {"$set": [1]}]
 
 
 class C15(PropBase):
